@@ -527,6 +527,9 @@ var cfgLink = tmplCfg{outputs: 1, hidden: 1, genes: 2, traits: 1, params: 1, fix
 var cfgSensors = tmplCfg{outputs: 1, hidden: 1, genes: 2, traits: 2, params: 1, fixedBase: true, biasFree: true, symRecur: true, symEnable: true}
 var cfgSensors2 = tmplCfg{outputs: 1, hidden: 1, genes: 2, traits: 1, params: 1, symRecur: false, symEnable: true, links: [][2]int{{0, 2}, {3, 2}}}
 var cfgLinkLate = tmplCfg{outputs: 1, hidden: 1, genes: 2, traits: 1, params: 1, fixedBase: true, lateInput: true}
+// 15 genes: the branch of mutateAddNode that picks the gene to split uniformly at random (genomes of >= 15 genes)
+var cfgLarge = tmplCfg{outputs: 2, hidden: 2, genes: 15, traits: 1, params: 1, symRecur: false, symEnable: false,
+	links: [][2]int{{0, 2}, {0, 3}, {0, 4}, {0, 5}, {1, 2}, {2, 4}, {3, 5}, {2, 5}, {4, 2}, {4, 3}, {4, 5}, {5, 2}, {5, 3}, {5, 4}, {4, 4}}}
 var cfgTiny = tmplCfg{outputs: 1, hidden: 0, genes: 2, traits: 1, params: 1, fixedBase: true, symRecur: false, symEnable: true}
 var cfgTwoTraits = tmplCfg{outputs: 1, hidden: 1, genes: 3, traits: 2, params: 1, fixedBase: true, symRecur: false, symEnable: true}
 
@@ -565,3 +568,7 @@ func VC03_AddLink_Thorough() {
 func VC03_ConnectSensors()  { vcMut(propC03, mutConnectSensors, cfgSensors, vChoice("record", 3)) }
 func VC03_ConnectSensors2() { vcMut(propC03, mutConnectSensors, cfgSensors2, vChoice("record", 2)) }
 func VC03_AddLinkLate()     { vcMut(propC03, mutAddLink, cfgLinkLate, vChoice("record", 2)) }
+
+func VC01_AddNode_Large() { vcMut(propC01, mutAddNode, cfgLarge, 0) }
+func VC05_AddNode_Large() { vcMut(propC05, mutAddNode, cfgLarge, 0) }
+func VC03_AddNode_Large() { vcMut(propC03, mutAddNode, cfgLarge, 0) }
